@@ -699,14 +699,17 @@ class _ParamUpdater(Thread):
             if self.cf.link:
                 if self._useV2:
                     if pk.channel == MISC_CHANNEL:
-                        self._lock_pattern = pk.data[:3]
+                        lock_pattern = pk.data[:3]
                     else:
-                        self._lock_pattern = pk.data[:2]
-
-                    self.cf.send_packet(pk, expected_reply=(tuple(self._lock_pattern)))
+                        lock_pattern = pk.data[:2]
                 else:
-                    self._lock_pattern = pk.data[:1]
-                    self.cf.send_packet(pk, expected_reply=(tuple(pk.data[:1])))
+                    lock_pattern = pk.data[:1]
+
+                # The reply handler clears _lock_pattern from another thread
+                # (a late duplicate of an earlier reply can match at once),
+                # do not read it back here
+                self._lock_pattern = lock_pattern
+                self.cf.send_packet(pk, expected_reply=(tuple(lock_pattern)))
             else:
                 try:
                     self.wait_lock.release()
